@@ -2,7 +2,7 @@
 
 STRVALS = {"pkg": "./pkg/strvals", "files": ["pkg/strvals/h_c04_set.go"]}
 
-STORAGE = {"pkg": "./pkg/storage", "files": ["pkg/storage/h_common.go", "pkg/storage/h_c10_mem.go"]}
+STORAGE = {"pkg": "./pkg/storage", "files": ["pkg/storage/h_common.go", "pkg/storage/h_c10_mem.go", "pkg/storage/h_c01_prune.go"]}
 
 CHECKS = {
     # engine self-test (setup_cmd): a harness with a deliberately false assertion must yield a
@@ -10,6 +10,10 @@ CHECKS = {
     "SELFTEST": {
         "runs": [{"pkg": "./pkg/strvals", "files": ["pkg/strvals/h_bringup.go"], "entries": ["HBringupConcrete", "HBringupSym", "HBringupBad"]}],
         "bounds": {}, "assumptions": ["self-test only"],
+    },
+    "C01": {
+        "runs": [dict(STORAGE, entries=["H01Prune"], bounds_quick={"recs": 3, "maxver": 97, "maxhist": 4, "nstatus": 4}, bounds_thorough={"recs": 5, "maxver": 97, "maxhist": 6})],
+        "bounds": {}, "assumptions": [],
     },
     "C10": {
         "runs": [dict(STORAGE, entries=["H10MemStep"], bounds_quick={"recs": 2, "namelen": 3, "maxver": 9}, bounds_thorough={"recs": 2, "namelen": 4, "maxver": 99})],
